@@ -130,3 +130,24 @@ Theorem C10_single_update_diff_applies : forall k t old new,
   same_rrset (s_get k (apply_zdiff [(k, (t, old))] (ds_rem st, ds_add st))) (Some (t, new)).
 Proof. exact single_update_diff_applies. Qed.
 Print Assumptions C10_single_update_diff_applies.
+
+Theorem C10_abort_then_axfr : forall us1 z0 st1 s ks,
+  u_apply_all us1 (u_start z0) = Ok st1 ->
+  c10_transfers z0 [us1; axfr_upds s ks] = Ok [u_visible st1; Soa s :: rev (map Other ks)].
+Proof. exact abort_then_axfr. Qed.
+Print Assumptions C10_abort_then_axfr.
+
+Theorem C10_abort_then_ixfr : forall us1 z0 st1 snew ds,
+  u_apply_all us1 (u_start z0) = Ok st1 ->
+  c10_transfers z0 [us1; ixfr_upds snew ds] =
+  Ok [u_visible st1;
+      z_update_soa snew (fold_left (fun z d => apply_diff_z d z) ds (u_visible st1))].
+Proof. exact abort_then_ixfr. Qed.
+Print Assumptions C10_abort_then_ixfr.
+
+Theorem C10_abort_invisible : forall us1 z0 st1,
+  u_apply_all us1 (u_start z0) = Ok st1 ->
+  forallb (fun u => negb (is_commit u)) us1 = true ->
+  c10_transfers z0 [us1] = Ok [z0].
+Proof. exact abort_invisible. Qed.
+Print Assumptions C10_abort_invisible.
